@@ -161,6 +161,13 @@ def _pad_text(index: RepoIndex, sub: Subgrid, p: ast.AST, depth: int = 3) -> str
     return src(p)
 
 
+def _contains_takes_pairs(index: RepoIndex) -> bool:
+    """Area.contains has the duck-typing form that also unpacks a (y, x) pair"""
+    from ..normalise import duck_pair_versions
+    f = index.func('gym_gridverse/geometry.py', 'Area.contains')
+    return duck_pair_versions(f.node) is not None
+
+
 def padding(index: RepoIndex, rep, rule: str, sub: Subgrid) -> None:
     """C05.R2 / C07.R3: the in-grid test of Grid.subgrid is two-sided on both axes"""
     f = sub.func
@@ -194,6 +201,13 @@ def padding(index: RepoIndex, rep, rule: str, sub: Subgrid) -> None:
                 and src(e.func.value) == 'self.area' and len(e.args) == 1 \
                 and isinstance(e.args[0], ast.Call) and len(e.args[0].args) == 2:
             a, b = (ev(x, env, call) for x in e.args[0].args)
+            return 0 <= a <= env['self.area.ymax'] and 0 <= b <= env['self.area.xmax']
+        if isinstance(e.func, ast.Attribute) and e.func.attr == 'contains' \
+                and src(e.func.value) == 'self.area' and len(e.args) == 1 \
+                and isinstance(e.args[0], ast.Tuple) and len(e.args[0].elts) == 2 \
+                and _contains_takes_pairs(index):
+            # a (y, x) pair, which Area.contains unpacks itself (judged by C01.R3)
+            a, b = (ev(x, env, call) for x in e.args[0].elts)
             return 0 <= a <= env['self.area.ymax'] and 0 <= b <= env['self.area.xmax']
         return NotImplemented
 
